@@ -20,13 +20,13 @@ CLAIMED = {
 CLAIMED["C12"] = {
     "text": "Seeded search over interleavings of start_of/end_of (9 units, DateTime and Date, values obtained by construction, conversion, parsing, timestamps, earlier ops and the simulated clock) with a nemesis that rewrites week_starts_at()/week_ends_at() mid-call and restarts caches; each result must be the answer under one configuration that was in force during the call (register linearizability against the cold re-execution) and must equal the first/last instant of the unit computed from the standard library's tz data.",
     "ref": "DESIGN.md §5 C12",
-    "note": "trusts: stdlib zoneinfo/tzdata as reference; week registers written by a single nemesis actor; one open known finding class (boundary wall time skipped/repeated resolved by the carried fold) is suppressed by signature only",
+    "note": "trusts: stdlib zoneinfo/tzdata as reference; week registers written by a single nemesis actor; for second/minute/hour inside a repeated period the unit is the value's own occurrence (as the repository's tests pin it); two open known finding classes (unit boundary strictly inside an off-the-hour gap; week boundary on a calendar day the zone skipped entirely) are suppressed by signature only",
 }
 
 CLAIMED["C16"] = {
     "text": "Seeded search over interleavings of next/previous/first_of/last_of/nth_of (Date and DateTime, zones with skipped midnights) with a nemesis that calls calendar.setfirstweekday(), rewrites the week configuration, clears the zone cache and restarts; every result must equal the cold re-execution in the default environment (the statement has no dependence on the calendar module's display setting) and the weekday arithmetic of datetime.date.",
     "ref": "DESIGN.md §5 C16",
-    "note": "trusts: datetime.date arithmetic and stdlib zoneinfo as reference; time-of-day is asserted only where the target wall time is unique or a skipped midnight; one open known finding class (skipped/repeated midnight resolved by the carried fold) is suppressed by signature only",
+    "note": "trusts: datetime.date arithmetic and stdlib zoneinfo as reference; time-of-day is asserted only where the target wall time is unique or a skipped midnight; silent where the calendar day the statement names does not exist in the zone; no open known finding (f41cb8b, eb4d7a7)",
 }
 
 CLAIMED["C02"] = {
@@ -93,7 +93,8 @@ PENDING = {p: "simulation target per DESIGN.md §5, check still under constructi
 FIX_COMMITS = ["0cac821 (C09 lazy-slot race)", "c2f908d (previous() never terminates across a skipped calendar day; C12/C16)",
                "2c83944 (next() drifts to 01:00 after a skipped midnight; C16)", "6249586 (C12 week configuration read twice)", "1273e62 (C16 first_of/last_of depend on calendar.setfirstweekday())", "9fab684 (C02 mock local zone read twice)", "fc92ad3 (C06 precise_diff full-month shortcut, Python + Rust)", "b63f456 (Interval.__init__ dropped endpoint fold; C18)", "a0e6037 (zh before/after templates; C18)", "5ef6d18 (nl week_data misplaced; C18)", "89fb712 (Rust ordinal dates on month ends; C08)", "ab5eca4 (z token regex; C08)", "77c9f3a (from_format escaped literals; C08)", "7d62906 + 71470da (Do token in from_format; C08)", "a8ba9ca (instance() of pytz second-pass datetimes; C01)", "df3000b (instance() of pytz.FixedOffset; C01)", "a2ae08e (Interval endpoint order by instant for shared tzinfo; C05/C18)", "6546eac (Duration deepcopy weeks; C14)", "02aeae7 (Interval deepcopy; C14)", "3598369 (DateTime pickle fold; C14)", "249b599 (Duration pickle years/months; C14)",
                "bf98e04 (compiled precise_diff UTC shift across month boundaries; C06/C18)", "771269e (compiled precise_diff equal-endpoints early return; C06)",
-               "dc6c9d1 (quarter/year navigation carried the time of day onto a date where it is skipped; C16)"]
+               "dc6c9d1 (quarter/year navigation carried the time of day onto a date where it is skipped; C16)",
+               "f41cb8b (start_of/end_of boundary resolved with the carried fold; C12/C16)", "eb4d7a7 (navigation kept 01:00 from a day without midnight; C16)"]
 
 
 def main():
